@@ -27,15 +27,16 @@ from .common import Check, sx, forbidden_scan, VERIF, REPO, PY
 TRUSTED = [
     "Coq 8.16.1 kernel (coqc); vm_compute only in Examples and _refuted witnesses",
     "Print Assumptions: all C17 theorems closed under the global context (no axioms)",
-    "translator harness/c17.py:generate (Python ast): statement order inside _write_file (makedirs, open 'wb', write, [flush], fsync inside the with), use_fsync=True at KeyValueStorage.set",
+    "translator harness/c17.py:generate (Python ast): statement order inside _write_file (probe for the topmost created component, makedirs, open 'wb', write, [flush], fsync inside the with, _fsync_dirs after it) and the body of _fsync_dirs, use_fsync=True at KeyValueStorage.set",
     "extraction: ExtrOcamlBasic only; ocaml/driver.ml",
     "strace 6.1 (-f -y) and the trace parser; payloads are replaced by short unique tokens before the recorded trace is given to check_crash "
     "(sound as long as no payload is a byte prefix of another; the generator guarantees it)",
     "the persistence model itself (POSIX-style, journalled / strict variants) is an assumption about the kernel and file system, not a fact about ext4",
 ]
 ASSUME = [
-    "persistence model: fsync(fd) makes the file's current content durable; a crash leaves per file either its durable content or a byte prefix of its volatile content; "
-    "journalled variant: the fsync of a new file also persists its directory entry (ext4/xfs behaviour); strict variant: never without fsync of the directory",
+    "persistence model: fsync(fd) makes the file's current content durable; fsync of a directory makes the names in it durable; a crash leaves per file nothing (name not durable), "
+    "its durable content, a byte prefix of its volatile content, or such a prefix over the old content (torn overwrite); "
+    "journalled variant: the fsync of a file also persists its name and its ancestors' names (ext4/xfs behaviour); strict variant: only fsync of the directory does",
     "BufferedWriter: a payload longer than the buffer (st_blksize) is written by f.write, a shorter one at flush/close (sampled by link 2 at sizes around the buffer size)",
     "reading a key depends only on that key's file (keys are prefix-free paths, C16)",
     "SIGKILL of the writer does not lose page-cache data: the kill runs support isolation only",
@@ -92,12 +93,37 @@ def generate():
             raise ShapeError("second statement in the with block is not `if use_fsync:`")
         inner = [ast.unparse(s) for s in w.body[1].body]
         if inner == ["os.fsync(%s.fileno())" % fvar]:
-            return False
-        if inner == ["%s.flush()" % fvar, "os.fsync(%s.fileno())" % fvar]:
-            return True
-        raise ShapeError("if use_fsync: body not recognised: %r" % inner)
+            flush = False
+        elif inner == ["%s.flush()" % fvar, "os.fsync(%s.fileno())" % fvar]:
+            flush = True
+        else:
+            raise ShapeError("if use_fsync: body not recognised: %r" % inner)
+        # directory syncs: `created` = topmost missing path component, found BEFORE makedirs; after the with block
+        # every directory from write_path up to dirname(created) is fsynced
+        src = [ast.unparse(s) for s in body]
+        after = src[idx_with[0] + 1:]
+        before = src[:idx_mk[0]]
+        call = "if created is not None:\n    self._fsync_dirs(write_path, os.path.dirname(created))"
+        probe = ("if use_fsync:\n    p = write_fname\n    while p and (not os.path.exists(p)):\n        created, p = (p, os.path.dirname(p))")
+        has_call = any("_fsync_dirs" in x or "created" in x for x in after)
+        has_probe = any("created" in x for x in before)
+        if not has_call and not has_probe:
+            sync = False
+        else:
+            if after[:1] != [call]:
+                raise ShapeError("directory sync after the with block not recognised: %r" % after[:1])
+            if "created = None" not in before or probe not in before:
+                raise ShapeError("search for the topmost created path component not recognised: %r" % before)
+            fd = astlib.find_func(cls, "_fsync_dirs")
+            fsrc = ast.unparse(fd)
+            need = ["d = first", "fd = os.open(d or '.', os.O_RDONLY)", "os.fsync(fd)", "os.close(fd)", "d = os.path.dirname(d)", "if d == last"]
+            if not all(x in fsrc for x in need) or not any(isinstance(x, ast.While) for x in ast.walk(fd)):
+                raise ShapeError("_fsync_dirs body not recognised")
+            sync = True
+        return flush, sync
     v, why = astlib.try_flag(write_file)
-    out.append("Definition flush_before_fsync : bool := %s." % astlib.coq_bool(bool(v)))
+    out.append("Definition flush_before_fsync : bool := %s." % astlib.coq_bool(bool(v and v[0])))
+    out.append("Definition sync_new_dirs : bool := %s." % astlib.coq_bool(bool(v and v[1])))
     out.append("Definition write_file_shape_ok : bool := %s.%s" % (astlib.coq_bool(v is not None), "" if why is None else " (* %s *)" % why))
     return "\n".join(out) + "\n"
 
@@ -209,10 +235,10 @@ def parse_strace(trf, roots):
             if nm is None or nm == []:
                 # fsync of the root directory or a sub directory would show here
                 if m1.group(1) in ("fsync", "fdatasync") and nm == []:
-                    cur.append(["fsync-dir", nm])
+                    cur.append(["fsyncdir", nm])
                 continue
             if os.path.isdir(m1.group(2)) and m1.group(1) in ("fsync", "fdatasync"):
-                cur.append(["fsync-dir", nm])
+                cur.append(["fsyncdir", nm])
             elif m1.group(1) == "write":
                 cur.append(["write", nm, ret])
             elif m1.group(1) == "fdatasync":
@@ -260,7 +286,7 @@ def real_to_checker_sets(sets, per_set):
             if e[0] == "write":
                 ev2.append(["write", e[1], pieces[wi]])
                 wi += 1
-            elif e[0] in ("mkdir", "open", "fsync", "close"):
+            elif e[0] in ("mkdir", "open", "fsync", "close", "fsyncdir"):
                 ev2.append([e[0], e[1]])
             # anything else (rename, fsync-dir, ...) is outside the model: reported by the trace comparison
         out.append([key_to_name(k), tok, ev2])
@@ -290,7 +316,7 @@ def gen_set_sequences(rng, tier, bufsize):
 
 def check_traces(chk, rng, workdir, flags, bufsize):
     """(a) real trace == model trace, and the verified checker on the real trace."""
-    fl, uf = flags
+    fl, uf, sd = flags
     seqs = gen_set_sequences(rng, chk.tier, bufsize)
     bad_prop = bad_corr = None
     findings = {}
@@ -311,7 +337,7 @@ def check_traces(chk, rng, workdir, flags, bufsize):
             raise RuntimeError("strace markers: %d sets, %d segments" % (len(seq), len(per_set)))
         lens = [serialize_len(s) for _, s, _ in seq]
         model_sets = [[key_to_name(k), [0] * l] for (k, _, _), l in zip(seq, lens)]
-        reqs.append(sx(["trace", 1 if fl else 0, 1 if uf else 0, bufsize, ["dirs"], ["sets"] + model_sets]))
+        reqs.append(sx(["trace", 1 if fl else 0, 1 if uf else 0, 1 if sd else 0, bufsize, ["sets"] + model_sets]))
         ck = real_to_checker_sets(seq, per_set)
         keys = sorted(set(tuple(key_to_name(k)) for k in KEYS))
         reqs.append(sx(["check", 1, ["keys"] + [list(k) for k in keys], ["sets"] + ck]))
@@ -348,12 +374,12 @@ def check_traces(chk, rng, workdir, flags, bufsize):
                            % (i_fail, seq[i_fail][0] if i_fail is not None else "?")}
             if bad_prop is None:
                 bad_prop = rep
-        if strict_ok != 1:
-            # strict variant: new keys never get a durable directory entry — is there any directory fsync at all?
-            anydirsync = any(e[0] == "fsync-dir" for evs in per_set for e in evs)
-            if not anydirsync:
-                findings.setdefault("C17-newkey-strict", {"kind": "crash-check", "variant": "strict", "sets": seq,
-                                                          "what": "no fsync of any directory in the recorded trace"})
+        if strict_ok != 1 and jr_ok == 1:
+            rep = {"kind": "crash-check", "variant": "strict", "sets": seq, "bufsize": bufsize, "observed_traces": rt,
+                   "what": "check_crash (strict variant: a name is durable only after fsync of its directory) rejects the recorded trace: "
+                           "a completed set of a first-time key or under a new directory can vanish in a crash"}
+            if bad_prop is None:
+                bad_prop = rep
         chk.sample({"sets": [[k, l] for (k, _, _), l in zip(seq, lens)], "trace": rt[0], "journalled_ok": jr_ok, "strict_ok": strict_ok}, limit=3)
     return bad_prop, bad_corr, findings
 
@@ -363,7 +389,7 @@ def check_images(chk, rng, workdir, flags, bufsize):
     from klongpy.db.sys_fn_kvs import KeyValueStorage
     from klongpy.db.helpers import serialize_obj
     from klongpy.core import KLONG_UNDEFINED
-    fl, uf = flags
+    fl, uf, sd = flags
     nseq = 25 if chk.tier == "quick" else 250
     bad_prop = bad_corr = None
     for j in range(nseq):
@@ -372,7 +398,7 @@ def check_images(chk, rng, workdir, flags, bufsize):
         sets = [(rng.choice(keys), [rng.randint(0, 255) for _ in range(rng.choice([1, 3, 10]))] + [j, i]) for i in range(m)]
         vals = [bytes(v) for _, v in sets]
         pays = [list(serialize_obj(v)) for v in vals]
-        tr = chk.run_model([sx(["trace", 1 if fl else 0, 1 if uf else 0, bufsize, ["dirs"],
+        tr = chk.run_model([sx(["trace", 1 if fl else 0, 1 if uf else 0, 1 if sd else 0, bufsize,
                                 ["sets"] + [[key_to_name(k), p] for (k, _), p in zip(sets, pays)]])])[0]
         # rebuild events with the real payload bytes
         flat = []
@@ -386,7 +412,7 @@ def check_images(chk, rng, workdir, flags, bufsize):
         for cut in range(len(flat) + 1):
             evs = [e for _, e in flat[:cut]]
             for k in keys:
-                reqs.append(sx(["cands", 1, key_to_name(k), ["evs"] + evs]))
+                reqs.append(sx(["cands", 0, key_to_name(k), ["evs"] + evs]))
             points.append(cut)
         outs = chk.run_model(reqs)
         oi = 0
@@ -594,6 +620,7 @@ def run(tier, replay=None):
         proof["broken"] = hits[0]
     fl = "flush_before_fsync : bool := true" in gen
     uf = "kvs_use_fsync : bool := true" in gen
+    sd = "sync_new_dirs : bool := true" in gen
     workdir = os.path.join(VERIF, ".work", "C17-%d" % os.getpid())
     shutil.rmtree(workdir, ignore_errors=True)
     os.makedirs(workdir)
@@ -601,14 +628,14 @@ def run(tier, replay=None):
     bufsize = bs if bs > 1 else 8192
     bad_props, bad_corrs = [], []
     try:
-        bp, bc, findings = check_traces(chk, rng, workdir, (fl, uf), bufsize)
+        bp, bc, findings = check_traces(chk, rng, workdir, (fl, uf, sd), bufsize)
         if bp:
             bad_props.append(bp)
         if bc:
             bad_corrs.append(bc)
         for fid, rep in findings.items():
             chk.finding(fid, rep["what"], rep)
-        bp, bc = check_images(chk, rng, workdir, (fl, uf), bufsize)
+        bp, bc = check_images(chk, rng, workdir, (fl, uf, sd), bufsize)
         if bp:
             bad_props.append(bp)
         bp = check_kill(chk, rng, workdir, bufsize)
